@@ -2,6 +2,7 @@
 //! tree) on generated operations and prints one line per operation:  `<op line> => <canonical output>`.
 //! The Lean driver is fed the `<op line>` part and must print the same `<canonical output>`.
 mod consts;
+mod fam_bank;
 mod fam_curve;
 mod fam_fx;
 mod fam_integr;
@@ -44,6 +45,8 @@ fn main() {
             let mut out: Vec<String> = Vec::new();
             match fam {
                 "fx" => fam_fx::gen(&mut rng, n, &mut out),
+                "wrapper" => fam_bank::gen_wrapper(&mut rng, n, &mut out),
+                "bank" => fam_bank::gen_bank_ops(&mut rng, n, &mut out),
                 "curve" => fam_curve::gen(&mut rng, n, &mut out),
                 "integr" => fam_integr::gen(&mut rng, n, &mut out),
                 "panic" => fam_panic::gen(&mut rng, n, &mut out),
